@@ -153,6 +153,9 @@ def _items():
             'pub fn pred_%s(x: &%s) -> bool { true }\n' % (nm, ty),
             'pub uninterp spec fn SPEC_PRED_%s(x: %s) -> bool;\n#[verifier::external_body]\n'
             'pub fn pred_%s(x: &%s) -> (r: bool) ensures r == SPEC_PRED_%s(*x) { unimplemented!() }\n' % (NM, ty, nm, ty, NM))
+    add('arr_fns',
+        'pub fn san_arr(mut a: [i32; 3]) -> [i32; 3] { if a[0] > a[1] { let t = a[0]; a[0] = a[1]; a[1] = t; } a }\n'
+        'pub fn pred_arr(a: &[i32; 3]) -> bool { a[2] != 7 }\n', '')
     add('Meters',
         '#[derive(Debug, Clone, Copy, PartialEq)]\npub struct Meters(pub i32);\n'
         'impl<\'a> arbitrary::Arbitrary<\'a> for Meters { fn arbitrary(u: &mut arbitrary::Unstructured<\'a>) -> arbitrary::Result<Self> { Ok(Meters(u.arbitrary()?)) } }\n'
